@@ -162,9 +162,21 @@ def msg_case(item):
             # stream of the same content): the serialiser need not reproduce
             # the peer's, but must be stable on its own output
             try:
-                w1 = bytes(fn(d).write())
-                if bytes(fn(w1).write()) == w1:
-                    r = ("roundtrip-recompressed",)
+                import zlib
+                dd = bytes(d)
+                alg = int.from_bytes(dd[4:6], "big")
+                ulen = int.from_bytes(dd[6:9], "big")
+                clen = int.from_bytes(dd[9:12], "big")
+                payload = dd[12:12 + clen]
+                dco = zlib.decompressobj()
+                plain = dco.decompress(payload)
+                # (only a complete stream of exactly the declared content
+                # with nothing after it is "another encoding")
+                if alg == 1 and 12 + clen == len(dd) and dco.eof and \
+                        not dco.unused_data and len(plain) == ulen:
+                    w1 = bytes(fn(d).write())
+                    if bytes(fn(w1).write()) == w1:
+                        r = ("roundtrip-recompressed",)
             except BaseException:  # noqa
                 pass
         sigs.add((tok, label.split("@")[0].split("=")[0].split("[")[0],
